@@ -1,0 +1,328 @@
+//go:build verif
+
+package table
+
+import (
+	enc "github.com/named-data/ndnd/std/encoding"
+)
+
+// Contracts for property C06 (the FIB always equals the flattening of the currently registered routes).
+// Verified with the merged gcv engine (/verif/gcv).
+
+func mapHas[K comparable, V any](m map[K]V, k K) bool { _, ok := m[k]; return ok }
+
+// ---------------------------------------------------------------------------------------
+// Abstract view of the FIB as the RIB sees it through the interface table.FibStrategy:
+//   ribFibView : name hash -> (face -> cost)          (A-HASH: a name is identified by its hash)
+// The interface contracts below are the C05 top-level clauses for the two mutators the RIB uses ("each mutator
+// changes exactly one prefix's entry"); they are ASSUMED at the interface (ghost state cannot be assigned by
+// production code, so the refinement by the two implementations is not discharged by gcv).
+// ---------------------------------------------------------------------------------------
+
+type ribFibViewEntry struct{ cost map[uint64]uint64 }
+
+var ribFibView map[uint64]*ribFibViewEntry
+
+type ribCostMapT = map[uint64]uint64
+
+func (e *ribFibViewEntry) has(k uint64) bool {
+	_, ok := e.cost[k]
+	return ok
+}
+
+func ribFibViewWf() bool {
+	return forall(func(h uint64) bool { return ribFibView[h] != nil && ribFibView[h].cost != nil })
+}
+
+// Separation (cannot be a Go spec function: Go has no map equality): distinct names own distinct cost maps:
+//   forall(func(a uint64, b uint64) bool { return a != b ==> ribFibView[a].cost != ribFibView[b].cost })
+
+// ribNameKey: the key of a name in the abstract FIB.
+func ribNameKey(n enc.Name) uint64 { return enc.SpecNameHash(n) }
+
+//@ func (FibStrategy).ClearNextHopsEnc
+//@   requires ribFibViewWf()
+//@   modifies ribFibView[ribNameKey(name)].cost[*]
+//@   ensures forall(func(k uint64) bool { return !ribFibView[ribNameKey(name)].has(k) })
+
+//@ func (FibStrategy).InsertNextHopEnc
+//@   requires ribFibViewWf()
+//@   modifies ribFibView[ribNameKey(name)].cost[*]
+//@   ensures ribFibView[ribNameKey(name)].has(nextHop) && ribFibView[ribNameKey(name)].cost[nextHop] == cost
+//@   ensures forall(func(k uint64) bool { return k != nextHop ==> ribFibView[ribNameKey(name)].has(k) == old(ribFibView[ribNameKey(name)].has(k)) && ribFibView[ribNameKey(name)].cost[k] == old(ribFibView[ribNameKey(name)].cost[k]) })
+
+// ---------------------------------------------------------------------------------------
+// RIB tree: representation invariant
+// ---------------------------------------------------------------------------------------
+
+func ribUpWf() bool {
+	return forall(func(e *RibEntry) bool {
+		return e.depth >= 0 && (e.parent == nil || e.depth == e.parent.depth+1)
+	})
+}
+
+func ribKidsWf() bool {
+	return forall(func(e *RibEntry, c *RibEntry) bool {
+		return implies(mapHas(e.children, c), c != nil && c.parent == e)
+	})
+}
+
+// ribNoNilKid: nil is never registered as a child.
+func ribNoNilKid() bool {
+	return forall(func(e *RibEntry) bool { return !mapHas(e.children, nil) })
+}
+
+// ribKidsHaveMap: every registered child owns a children map.
+func ribKidsHaveMap() bool {
+	return forall(func(e *RibEntry, c *RibEntry) bool { return implies(mapHas(e.children, c), c.children != nil) })
+}
+
+func ribRoutesWf() bool {
+	return forall(func(e *RibEntry, i int) bool {
+		return implies(0 <= i && i < len(e.routes), e.routes[i] != nil)
+	})
+}
+
+// ribInRoutes: rt is one of the routes registered on e.
+func ribInRoutes(e *RibEntry, rt *Route) bool {
+	return existsIn(0, len(e.routes), func(i int) bool { return e.routes[i] == rt })
+}
+
+// ribHasCapture: e holds a capture route.
+func ribHasCapture(e *RibEntry) bool {
+	return existsIn(0, len(e.routes), func(i int) bool { return e.routes[i].Flags&RouteFlagCapture != 0 })
+}
+
+// ribAllowed1: one-level consequence of the property statement for "which routes may contribute to r's next hops":
+// r's own routes; and, unless r holds a capture route, the child-inherit routes of its parent; routes from further up
+// ONLY IF the parent holds no capture route ("inheritance stops at, and includes, the nearest shorter prefix holding
+// a capture route").
+func ribAllowed1(r *RibEntry, rt *Route) bool {
+	return ribInRoutes(r, rt) ||
+		(!ribHasCapture(r) && r.parent != nil &&
+			((ribInRoutes(r.parent, rt) && rt.Flags&RouteFlagChildInherit != 0) || !ribHasCapture(r.parent)))
+}
+
+//@ func (*RibEntry).HasCaptureRoute
+//@   invariant ribRoutesWf()
+//@   ensures result == ribHasCapture(r)
+//@   loop 1 invariant forallIn(0, rangeindex+1, func(i int) bool { return r.routes[i].Flags&RouteFlagCapture == 0 })
+
+//@ func (*Route).HasCaptureFlag
+//@   ensures result == (r.Flags&RouteFlagCapture != 0)
+
+//@ func (*Route).HasChildInheritFlag
+//@   ensures result == (r.Flags&RouteFlagChildInherit != 0)
+
+// ---------------------------------------------------------------------------------------
+// RIB tree: searches, growing, pruning
+// ---------------------------------------------------------------------------------------
+
+//@ func (*RibEntry).findLongestPrefixEntryEnc
+//@   option heap-closedness
+//@   invariant ribUpWf()
+//@   invariant ribKidsWf()
+//@   invariant ribNoNilKid()
+//@   invariant ribKidsHaveMap()
+//@   decreases len(name) - r.depth
+//@   ensures result != nil && result.depth >= r.depth && (result.depth <= len(name) || result == r)
+//@   ensures [on-path] result == r || (result.parent != nil && mapHas(result.parent.children, result) && fibCompEq(name[result.depth-1], result.component))
+//@   ensures [maximal] result.depth < len(name) ==> forall(func(c *RibEntry) bool { return mapHas(result.children, c) ==> !fibCompEq(name[result.depth], c.component) })
+//@   loop 1 invariant forall(func(e *RibEntry) bool { return fresh(e) ==> e.children == nil && e.parent == nil })
+//@   loop 1 invariant forall(func(c *RibEntry) bool { return visited(c) && mapHas(r.children, c) ==> !fibCompEq(name[r.depth], c.component) })
+
+//@ func (*RibEntry).findExactMatchEntryEnc
+//@   option heap-closedness
+//@   invariant ribUpWf()
+//@   invariant ribKidsWf()
+//@   invariant ribNoNilKid()
+//@   invariant ribKidsHaveMap()
+//@   decreases len(name) - r.depth
+//@   ensures len(name) < r.depth ==> result == nil
+//@   ensures len(name) == r.depth ==> result == r
+//@   ensures [exact] result != nil && len(name) >= r.depth ==> result.depth == len(name)
+//@   ensures [on-path] result != nil && result != r ==> result.parent != nil && mapHas(result.parent.children, result) && fibCompEq(name[len(name)-1], result.component)
+//@   ensures [absent] result == nil && len(name) == r.depth+1 ==> forall(func(c *RibEntry) bool { return mapHas(r.children, c) ==> !fibCompEq(name[r.depth], c.component) })
+//@   loop 1 invariant forall(func(e *RibEntry) bool { return fresh(e) ==> e.children == nil && e.parent == nil })
+//@   loop 1 invariant forall(func(c *RibEntry) bool { return visited(c) && mapHas(r.children, c) ==> !fibCompEq(name[r.depth], c.component) })
+
+type ribKidsMapT = map[*RibEntry]bool
+
+//@ func (*RibTable).fillTreeToPrefixEnc
+//@   option heap-closedness
+//@   requires r.RibEntry.children != nil && r.RibEntry.depth == 0
+//@   invariant ribUpWf()
+//@   invariant ribKidsWf()
+//@   invariant ribNoNilKid()
+//@   invariant ribKidsHaveMap()
+//@   invariant forall(func(a *RibEntry, b *RibEntry) bool { return a != b && a.children != nil ==> a.children != b.children })
+//@   modifies all(ribKidsMapT)
+//@   ensures result != nil && result.depth == len(name) && result.children != nil
+//@   ensures [at-prefix] result == &r.RibEntry || (result.parent != nil && mapHas(result.parent.children, result) && fibCompEq(name[len(name)-1], result.component))
+//@   ensures [new-empty] forall(func(n *RibEntry) bool { return fresh(n) ==> len(n.routes) == 0 && n.Name == nil })
+//@   ensures [links-kept] forall(func(n *RibEntry, c *RibEntry) bool { return old(mapHas(n.children, c)) ==> mapHas(n.children, c) })
+//@   loop 1 invariant entry != nil && entry.children != nil && depth == entry.depth+1 && depth <= len(name)+1
+//@   loop 1 invariant entry == &r.RibEntry || (entry.parent != nil && mapHas(entry.parent.children, entry) && fibCompEq(name[entry.depth-1], entry.component))
+//@   loop 1 invariant forall(func(n *RibEntry) bool { return fresh(n) ==> len(n.routes) == 0 && n.Name == nil })
+//@   loop 1 invariant forall(func(n *RibEntry, c *RibEntry) bool { return old(mapHas(n.children, c)) ==> mapHas(n.children, c) })
+
+// ribEmpty: no children, no routes.
+func ribEmpty(e *RibEntry) bool { return len(e.children) == 0 && len(e.routes) == 0 }
+
+// ribLinked: e is listed among the children of its parent.
+func ribLinked(e *RibEntry) bool { return e.parent != nil && mapHas(e.parent.children, e) }
+
+// pruneIfEmpty: every childless, route-less node on the way up is unlinked; nothing else is.
+//
+//@ func (*RibEntry).pruneIfEmpty
+//@   option heap-closedness
+//@   invariant ribUpWf()
+//@   invariant ribKidsWf()
+//@   invariant ribNoNilKid()
+//@   invariant ribKidsHaveMap()
+//@   invariant forall(func(a *RibEntry, b *RibEntry) bool { return a != b && a.children != nil ==> a.children != b.children })
+//@   modifies all(ribKidsMapT)
+//@   ensures [self-pruned] old(r.parent != nil && ribEmpty(r)) ==> !ribLinked(r)
+//@   ensures [ancestors-pruned] forall(func(n *RibEntry) bool { return ribLinked(n) && ribEmpty(n) && n.parent.children != nil ==> old(ribEmpty(n)) })
+//@   ensures [only-empty] forall(func(c *RibEntry) bool { return old(ribLinked(c)) && !ribLinked(c) ==> ribEmpty(c) })
+//@   loop 1 invariant entry != nil && entry.depth <= r.depth && (entry != r ==> entry.depth < r.depth)
+//@   loop 1 invariant entry == r ==> forall(func(n *RibEntry, c *RibEntry) bool { return mapHas(n.children, c) == old(mapHas(n.children, c)) }) && forall(func(n *RibEntry) bool { return len(n.children) == old(len(n.children)) })
+//@   loop 1 invariant entry != r ==> old(r.parent != nil && ribEmpty(r)) && !ribLinked(r)
+//@   loop 1 invariant forall(func(n *RibEntry) bool { return n != entry && ribLinked(n) && ribEmpty(n) && n.parent.children != nil ==> old(ribEmpty(n)) })
+//@   loop 1 invariant forall(func(c *RibEntry) bool { return old(ribLinked(c)) && !ribLinked(c) ==> ribEmpty(c) })
+
+// ---------------------------------------------------------------------------------------
+// updateNexthopsEnc: the FIB entry of r.Name becomes the flattening of the routes that may contribute to r.
+// The clauses about r's own entry are stated for a node without children (the recursion into the children rewrites
+// other entries of the abstract FIB; relating those needs the name-disjointness of the subtree, which is not stated).
+//   [capture-stops]  every next hop of the entry is the face of an allowed route (ribAllowed1: own routes, the parent's
+//                    child-inherit routes unless r captures, anything from further up ONLY if the parent does not capture)
+//                    and its cost is the cost of such a route;
+//   [own-routes]     every own route's face is present, at a cost not above the route's cost (min cost per face);
+//   [filler-silent]  a name-less filler node does not touch the FIB (nothing appears in the root entry);
+//   [no-routes-no-entry] a node without routes contributes no FIB entry of its own.
+// ---------------------------------------------------------------------------------------
+
+type ribRoutesSliceT = []*Route
+
+// A-DEP: the readvertisers (NLSR readvertiser of fw/mgmt, reached through the interface RibReadvertise) neither modify
+// nor allocate RIB/FIB objects. (They were already treated as effect-free external calls; the option additionally tells
+// the allocation analysis that the objects they create are no RibEntry/Route/FIB nodes.)
+//
+//@ func readvertiseAnnounce
+//@   trusted
+//@   option allocs-other
+
+//@ func readvertiseWithdraw
+//@   trusted
+//@   option allocs-other
+
+//@ func (*RibEntry).updateNexthopsEnc
+//@   option heap-closedness
+//@   requires FibStrategyTable != nil
+//@   ensures [no-new-entries] forall(func(e *RibEntry) bool { return fresh(e) ==> e.children == nil && e.parent == nil && len(e.routes) == 0 })
+//@   loop 1 invariant forall(func(e *RibEntry) bool { return fresh(e) ==> e.children == nil && e.parent == nil && len(e.routes) == 0 })
+//@   loop 2 invariant forall(func(e *RibEntry) bool { return fresh(e) ==> e.children == nil && e.parent == nil && len(e.routes) == 0 })
+//@   loop 3 invariant forall(func(e *RibEntry) bool { return fresh(e) ==> e.children == nil && e.parent == nil && len(e.routes) == 0 })
+//@   loop 4 invariant forall(func(e *RibEntry) bool { return fresh(e) ==> e.children == nil && e.parent == nil && len(e.routes) == 0 })
+//@   loop 5 invariant forall(func(e *RibEntry) bool { return fresh(e) ==> e.children == nil && e.parent == nil && len(e.routes) == 0 })
+//@   loop 6 invariant forall(func(e *RibEntry) bool { return fresh(e) ==> e.children == nil && e.parent == nil && len(e.routes) == 0 })
+//@   invariant ribUpWf()
+//@   invariant ribKidsWf()
+//@   invariant ribNoNilKid()
+//@   invariant ribRoutesWf()
+//@   invariant ribFibViewWf()
+//@   invariant forall(func(a uint64, b uint64) bool { return a != b ==> ribFibView[a].cost != ribFibView[b].cost })
+//@   modifies all(ribCostMapT)
+//@   ensures [capture-stops] len(r.children) == 0 ==> forall(func(face uint64) bool { return ribFibView[ribNameKey(r.Name)].has(face) ==> exists(func(rt *Route) bool { return ribAllowed1(r, rt) && rt.FaceID == face && rt.Cost == ribFibView[ribNameKey(r.Name)].cost[face] }) })
+//@   ensures [own-routes] len(r.children) == 0 ==> forallIn(0, len(r.routes), func(i int) bool { return ribFibView[ribNameKey(r.Name)].has(r.routes[i].FaceID) && ribFibView[ribNameKey(r.Name)].cost[r.routes[i].FaceID] <= r.routes[i].Cost })
+//@   ensures [filler-silent] r.Name == nil && len(r.children) == 0 ==> forall(func(face uint64) bool { return ribFibView[ribNameKey(r.Name)].has(face) == old(ribFibView[ribNameKey(r.Name)].has(face)) })
+//@   ensures [no-routes-no-entry] len(r.routes) == 0 && len(r.children) == 0 ==> forall(func(face uint64) bool { return !ribFibView[ribNameKey(r.Name)].has(face) })
+//@   loop 1 invariant r.Name == nil && len(r.children) == 0 ==> forall(func(face uint64) bool { return ribFibView[ribNameKey(r.Name)].has(face) == old(ribFibView[ribNameKey(r.Name)].has(face)) })
+//@   loop 2 invariant fresh(routes) && len(routes) >= len(r.routes) && forallIn(0, len(r.routes), func(i int) bool { return routes[i] == r.routes[i] })
+//@   loop 2 invariant forallIn(0, len(routes), func(k int) bool { return routes[k] != nil && ribAllowed1(r, routes[k]) })
+//@   loop 2 invariant !ribHasCapture(r)
+//@   loop 2 invariant entry != nil && entry != r && entry != r.parent ==> !ribHasCapture(r.parent)
+//@   loop 3 invariant entry != nil && fresh(routes) && len(routes) >= len(r.routes) && forallIn(0, len(r.routes), func(i int) bool { return routes[i] == r.routes[i] })
+//@   loop 3 invariant forallIn(0, len(routes), func(k int) bool { return routes[k] != nil && ribAllowed1(r, routes[k]) })
+//@   loop 3 invariant !ribHasCapture(r)
+//@   loop 3 invariant entry != r && entry != r.parent ==> !ribHasCapture(r.parent)
+//@   loop 4 invariant forall(func(face uint64) bool { return mapHas(minCostRoutes, face) ==> existsIn(0, rangeindex+1, func(k int) bool { return routes[k].FaceID == face && routes[k].Cost == minCostRoutes[face] }) })
+//@   loop 4 invariant forallIn(0, rangeindex+1, func(k int) bool { return mapHas(minCostRoutes, routes[k].FaceID) && minCostRoutes[routes[k].FaceID] <= routes[k].Cost })
+//@   loop 5 invariant forall(func(face uint64) bool { return visited(face) && mapHas(minCostRoutes, face) ==> ribFibView[ribNameKey(r.Name)].has(face) && ribFibView[ribNameKey(r.Name)].cost[face] == minCostRoutes[face] })
+//@   loop 5 invariant forall(func(face uint64) bool { return ribFibView[ribNameKey(r.Name)].has(face) ==> mapHas(minCostRoutes, face) })
+//@   loop 5 invariant len(r.routes) == 0 ==> forall(func(face uint64) bool { return !ribFibView[ribNameKey(r.Name)].has(face) })
+//@   loop 6 invariant len(r.routes) == 0 && len(r.children) == 0 ==> forall(func(face uint64) bool { return !ribFibView[ribNameKey(r.Name)].has(face) })
+//@   loop 6 invariant len(r.children) == 0 ==> forall(func(face uint64) bool { return ribFibView[ribNameKey(r.Name)].has(face) ==> mapHas(minCostRoutes, face) && ribFibView[ribNameKey(r.Name)].cost[face] == minCostRoutes[face] })
+//@   loop 6 invariant len(r.children) == 0 ==> forall(func(face uint64) bool { return mapHas(minCostRoutes, face) ==> ribFibView[ribNameKey(r.Name)].has(face) && ribFibView[ribNameKey(r.Name)].cost[face] == minCostRoutes[face] })
+
+// ---------------------------------------------------------------------------------------
+// AddEncRoute / RemoveRouteEnc / CleanUpFace: the route multiset changes exactly as named
+// ---------------------------------------------------------------------------------------
+
+// ribHasRoute: e holds a route of (face, origin) with the given cost and flags.
+func ribHasRoute(e *RibEntry, face uint64, origin uint64, cost uint64, flags uint64) bool {
+	return (len(e.routes) > 0 && e.routes[len(e.routes)-1].FaceID == face && e.routes[len(e.routes)-1].Origin == origin && e.routes[len(e.routes)-1].Cost == cost && e.routes[len(e.routes)-1].Flags == flags) ||
+		existsIn(0, len(e.routes), func(i int) bool {
+			return e.routes[i].FaceID == face && e.routes[i].Origin == origin && e.routes[i].Cost == cost && e.routes[i].Flags == flags
+		})
+}
+
+//@ func (*RibTable).AddEncRoute
+//@   option heap-closedness
+//@   requires route != nil && FibStrategyTable != nil && r.RibEntry.children != nil && r.RibEntry.depth == 0
+//@   invariant ribUpWf()
+//@   invariant ribKidsWf()
+//@   invariant ribNoNilKid()
+//@   invariant ribKidsHaveMap()
+//@   invariant forall(func(a *RibEntry, b *RibEntry) bool { return a != b && a.children != nil ==> a.children != b.children })
+//@   invariant ribRoutesWf()
+//@   invariant ribFibViewWf()
+//@   invariant forall(func(a uint64, b uint64) bool { return a != b ==> ribFibView[a].cost != ribFibView[b].cost })
+//@   modifies all(ribKidsMapT), all(RibEntry.Name), all(RibEntry.routes), all(ribRoutesSliceT), all(Route.Cost), all(Route.Flags), all(Route.ExpirationPeriod), all(ribCostMapT)
+//@   ensures [registered] exists(func(e *RibEntry) bool { return e.depth == len(name) && ribHasRoute(e, route.FaceID, route.Origin, route.Cost, route.Flags) })
+//@   ensures [one-entry] forall(func(n *RibEntry) bool { return !sameSlice(n.routes, old(n.routes)) ==> n.depth == len(name) && len(n.routes) == old(len(n.routes))+1 })
+//@   ensures [others-untouched] forall(func(x *Route) bool { return !fresh(x) && (x.Cost != old(x.Cost) || x.Flags != old(x.Flags)) ==> x.FaceID == route.FaceID && x.Origin == route.Origin })
+//@   loop 1 invariant forallIn(0, rangeindex+1, func(i int) bool { return !(node.routes[i].FaceID == route.FaceID && node.routes[i].Origin == route.Origin) })
+
+//@ func (*RibTable).RemoveRouteEnc
+//@   option heap-closedness
+//@   requires FibStrategyTable != nil && r.RibEntry.depth == 0
+//@   ensures [no-new-entries] forall(func(e *RibEntry) bool { return fresh(e) ==> e.children == nil && e.parent == nil && len(e.routes) == 0 })
+//@   loop 1 invariant forall(func(e *RibEntry) bool { return fresh(e) ==> e.children == nil && e.parent == nil && len(e.routes) == 0 })
+//@   invariant ribUpWf()
+//@   invariant ribKidsWf()
+//@   invariant ribNoNilKid()
+//@   invariant ribKidsHaveMap()
+//@   invariant forall(func(a *RibEntry, b *RibEntry) bool { return a != b && a.children != nil ==> a.children != b.children })
+//@   invariant ribRoutesWf()
+//@   invariant ribFibViewWf()
+//@   invariant forall(func(a uint64, b uint64) bool { return a != b ==> ribFibView[a].cost != ribFibView[b].cost })
+//@   modifies all(ribKidsMapT), all(RibEntry.routes), all(ribRoutesSliceT), all(ribCostMapT)
+//@   ensures [one-entry] forall(func(n *RibEntry) bool { return !sameSlice(n.routes, old(n.routes)) ==> n.depth == len(name) && len(n.routes) == old(len(n.routes))-1 })
+//@   ensures [entry-dropped] forall(func(n *RibEntry) bool { return !sameSlice(n.routes, old(n.routes)) && len(n.routes) == 0 && len(n.children) == 0 ==> forall(func(face uint64) bool { return !ribFibView[ribNameKey(n.Name)].has(face) }) })
+//@   loop 1 invariant forallIn(0, rangeindex+1, func(i int) bool { return !(entry.routes[i].FaceID == faceID && entry.routes[i].Origin == origin) })
+//@   loop 1 invariant forall(func(n *RibEntry) bool { return sameSlice(n.routes, old(n.routes)) })
+
+// CleanUpFace: "once a face is removed no next hop derived from it remains anywhere": no route of the face is left on r.
+//
+//@ func (*RibEntry).CleanUpFace
+//@   option heap-closedness
+//@   requires FibStrategyTable != nil
+//@   ensures [no-new-entries] forall(func(e *RibEntry) bool { return fresh(e) ==> e.children == nil && e.parent == nil && len(e.routes) == 0 })
+//@   loop 1 invariant forall(func(e *RibEntry) bool { return fresh(e) ==> e.children == nil && e.parent == nil && len(e.routes) == 0 })
+//@   loop 2 invariant forall(func(e *RibEntry) bool { return fresh(e) ==> e.children == nil && e.parent == nil && len(e.routes) == 0 })
+//@   invariant ribUpWf()
+//@   invariant ribKidsWf()
+//@   invariant ribNoNilKid()
+//@   invariant ribKidsHaveMap()
+//@   invariant forall(func(a *RibEntry, b *RibEntry) bool { return a != b && a.children != nil ==> a.children != b.children })
+//@   invariant ribRoutesWf()
+//@   invariant ribFibViewWf()
+//@   invariant forall(func(a uint64, b uint64) bool { return a != b ==> ribFibView[a].cost != ribFibView[b].cost })
+//@   modifies all(ribKidsMapT), all(RibEntry.routes), all(ribRoutesSliceT), all(ribCostMapT)
+//@   ensures [face-gone] forallIn(0, len(r.routes), func(i int) bool { return r.routes[i].FaceID != faceId })
+//@   ensures [routes-only-shrink] forall(func(n *RibEntry) bool { return len(n.routes) <= old(len(n.routes)) })
+//@   loop 1 invariant forall(func(n *RibEntry) bool { return len(n.routes) <= old(len(n.routes)) })
+//@   loop 2 invariant 0 <= i && i <= len(r.routes) && forallIn(0, i, func(k int) bool { return r.routes[k].FaceID != faceId })
+//@   loop 2 invariant forall(func(n *RibEntry) bool { return len(n.routes) <= old(len(n.routes)) })
